@@ -226,6 +226,12 @@ impl Screen {
 
         (self.lines, self.columns) = (lines, columns);
         self.set_margins(None, None);
+
+        // The cursor must end inside the new bounds.
+        if self.cursor.x > self.columns {
+            self.ensure_hbounds();
+        }
+        self.ensure_vbounds(None);
     }
 
     // Ensure the cursor is within horizontal screen bounds."""
